@@ -130,3 +130,14 @@ Theorem C08_derive_true : forall g rt nodes T,
   (forall v, In v T -> annot_true g rt v) -> forall v, In v (derive g nodes T) -> annot_true g rt v.
 Proof. exact derive_true. Qed.
 Print Assumptions C08_derive_true.
+
+(* the operator sets of the two propagation passes (translated constants) only contain operators with the shape rule the
+   pass applies: same shape as the first input / multidirectional broadcast (Clip: scalar min/max by specification) *)
+Theorem C08_unary_dataflow_ops_same_shape :
+  forallb (fun o => str_mem o first_input_shape_ops) GS_UNARY_DATAFLOW_OPS = true.
+Proof. exact unary_dataflow_ops_same_shape. Qed.
+Print Assumptions C08_unary_dataflow_ops_same_shape.
+Theorem C08_elementwise_binary_ops_broadcast :
+  forallb (fun o => str_mem o broadcast_ops || String.eqb o "Clip") GS_ELEMENTWISE_BINARY_OPS = true.
+Proof. exact elementwise_binary_ops_broadcast. Qed.
+Print Assumptions C08_elementwise_binary_ops_broadcast.
